@@ -194,6 +194,7 @@ def _ops():
         (1, st.just(["disconnect"])),
         (2, st.just(["reconnect"])),
         (2, st.just(["abandoned_read"])),
+        (3, st.integers(0, 4).map(lambda k: ["cancelled_read", k])),
     )
     return st.lists(op, min_size=0, max_size=14)
 
@@ -224,6 +225,12 @@ def enumerate_cases(tier: str):
                    "ops": [["deliver", [node, 1, 1, 0, 2, "1"]], ["read"], ["reconnect"], ["deliver", [node, 255, 3, 1, 0, "7"]], ["echo", [node, 2, 1, 1, 47, "a;b/c"]], ["reconnect"], ["deliver", [node, 255, 4, 0, 1, ""]]]}
     for fault in ("connect", "subscribe"):
         yield {"in_prefix": "in", "out_prefix": "out", "connect_fault": fault, "ops": []}
+    # a burst is queued, the reader is cancelled after k loop iterations, the next reader gets everything that was not returned
+    for k in range(0, 6):
+        for n in (1, 2, 3):
+            ops = [["deliver", [7, 1, 1, 0, 2, str(i)]] for i in range(n)] + [["deliver_bin", [7, 1, 1, 0, 2], "\xff"], ["deliver", [7, 1, 1, 0, 2, "last"]]]
+            ops += [["cancelled_read", k], ["cancelled_read", k], ["read"], ["cancelled_read", k + 1]]
+            yield {"in_prefix": "in", "out_prefix": "out", "connect_fault": "none", "ops": ops}
     # what the broker replays right after the subscription (retained messages), and every QoS it may deliver with
     for qos in (0, 1, 2):
         for retain in (False, True):
@@ -435,6 +442,33 @@ def run_case(case: dict) -> Outcome:
                         return fail(f"read-leak:{type(err).__name__}", f"{where}: {err!r}")
                     else:
                         return fail("read-invented-message", f"{where}: a read returned although nothing was delivered")
+            elif kind == "cancelled_read":
+                # the reading task is cancelled (shutdown, asyncio.timeout) after a few loop iterations: an entry it did not
+                # return stays owed to the next read - whatever point of read() the cancellation hit
+                task = asyncio.ensure_future(transport.read())
+                for _ in range(int(op[1])):
+                    await asyncio.sleep(0)
+                if not task.done():
+                    task.cancel()
+                try:
+                    got = await asyncio.wait_for(task, 5.0)
+                except asyncio.CancelledError:
+                    info["kinds"].add("cancelled-read")
+                    continue
+                except asyncio.TimeoutError:
+                    return fail("read-hangs:cancelled", f"{where}: a cancelled read never ends")
+                except TransportError as err:
+                    if not expected or expected[0][0] != "error":
+                        return fail(f"read-raises:{type(err).__name__}:expected-{expected[0][0] if expected else 'nothing'}", f"{where}: read raised {err!r}")
+                    expected.pop(0)
+                    continue
+                except Exception as err:  # noqa: BLE001
+                    return fail(f"read-leak:{type(err).__name__}", f"{where}: {err!r}")
+                if not expected:
+                    return fail("read-invented-message", f"{where}: a read returned {got!r} although nothing is owed")
+                want_kind, want = expected.pop(0)
+                if want_kind != "line" or (got != want and got.rstrip("\n") != str(want).rstrip("\n")):
+                    return fail("read-wrong-line", f"{where}: read returned {got!r}, expected {want_kind} {want!r}")
             elif kind == "reconnect":
                 # same transport object, new session; what was received but not read yet stays owed to the reader
                 try:
